@@ -5,8 +5,8 @@ Line → row extraction: `TableDefinition::extract`, `ParsingInput::new`, `Colum
 `extract_using_regex`, `Row::any_result` (`src/data_model.rs`), `ValueType::parse` (`src/model.rs`).
 
 External facts enter as oracles, for *all* of which the theorems are stated:
-* `LineOracle.captures k` / `split k`: the answer of `Regex::captures(line)` / `Regex::split(line)` of the
-  table's `k`-th pattern (optional group texts, group 0 = whole match / field list);
+* `LineOracle.captures re` / `split re`: the answer of `Regex::captures(line)` / `Regex::split(line)` for the
+  regular expression with source text `re` (optional group texts, group 0 = whole match / field list);
 * `LineOracle.json`: `serde_json::from_str(line)` (`none` = not JSON);
 * `Oracles.parseF64`: `f64::from_str` (bits).
 -/
@@ -20,6 +20,7 @@ inductive RegexMode where
 
 structure Pattern where
   name : Text
+  regex : Text      -- source text of the regular expression
   mode : RegexMode
   deriving Repr, Inhabited
 
@@ -72,8 +73,8 @@ structure Oracles where
 /-- what the external libraries say about one line -/
 structure LineOracle where
   line : Text
-  captures : Nat → Option (List (Option Text))
-  split : Nat → List Text
+  captures : Text → Option (List (Option Text))
+  split : Text → List Text
   json : Option Json
 
 inductive RegexResult where
@@ -86,19 +87,19 @@ structure ParsingInput where
   regex : List (Text × RegexResult)
   json : Json
 
-def buildResults (lo : LineOracle) : List Pattern → Nat → List (Text × RegexResult) → List (Text × RegexResult)
-  | [], _, acc => acc
-  | p :: ps, k, acc =>
+def buildResults (lo : LineOracle) : List Pattern → List (Text × RegexResult) → List (Text × RegexResult)
+  | [], acc => acc
+  | p :: ps, acc =>
     match p.mode with
     | .captures =>
-      match lo.captures k with
-      | some gs => buildResults lo ps (k + 1) ((p.name, .captures gs) :: acc)
-      | none => buildResults lo ps (k + 1) acc
-    | .split => buildResults lo ps (k + 1) ((p.name, .split (lo.line :: lo.split k)) :: acc)
+      match lo.captures p.regex with
+      | some gs => buildResults lo ps ((p.name, .captures gs) :: acc)
+      | none => buildResults lo ps acc
+    | .split => buildResults lo ps ((p.name, .split (lo.line :: lo.split p.regex)) :: acc)
 
 /-- `ParsingInput::new` -/
 def ParsingInput.new (d : TableDef) (lo : LineOracle) : ParsingInput :=
-  { regex := buildResults lo d.patterns 0 [],
+  { regex := buildResults lo d.patterns [],
     json := if d.anyJson then lo.json.getD .null else .null }
 
 /-- `ValueType::parse` -/
@@ -178,7 +179,7 @@ def tsStep (o : Oracles) (c : Column) (inp : ParsingInput) (idx : Nat) (r : Ref)
         match monthOfName t with
         | some m => .cont { p with month := m }
         | none => .ret .null
-      | _ => .cont p
+      | _ => .ret .null
     else .ret .null
 
 def tsLoop (o : Oracles) (c : Column) (inp : ParsingInput) : List Ref → Nat → TsParts → Value
